@@ -376,7 +376,7 @@ func TestC14(t *testing.T) {
 	})
 }
 
-var raceTop = regexp.MustCompile(`(?m)^  (github\.com/ory/keto/[^\s(]+)\(`)
+var raceTop = regexp.MustCompile(`(?m)^  (github\.com/ory/keto/\S+)\(.*\)$`)
 
 // racePass runs the free-running -race binary and turns every distinct report into a violation
 // whose signature is the pair of top-most keto frames of the two conflicting accesses.
